@@ -26,7 +26,7 @@ void *STUB_memcpy(void *dst, const void *src, size_t n) {
 #endif
 void harness_parse_any(void) {
     secp256k1_context ctx; secp256k1_surjectionproof proof; size_t len = nondet_size_t(), n, nb, pc = 0, i; unsigned char *in; int r, ref;
-    verif_ctx_init(&ctx); __CPROVER_assume(len <= PMAX); in = malloc(len ? len : 1); __CPROVER_assume(in != NULL);
+    verif_ctx_init(&ctx); __CPROVER_assume(len <= PMAX); in = malloc(len); __CPROVER_assume(in != NULL);
     r = secp256k1_surjectionproof_parse(&ctx, &proof, in, len);
     /* reference canonical grammar */
     ref = 0;
